@@ -22,7 +22,8 @@ def palette(n):
 def lib():
     global _LIB
     if _LIB is None:
-        path = os.path.join(os.environ.get('VERIF_BUILD', '/verif/build'), 'libpoison.so')
+        here = os.path.dirname(os.path.dirname(os.path.dirname(os.path.abspath(__file__))))
+        path = os.path.join(os.environ.get('VERIF_BUILD') or os.path.join(here, 'build'), 'libpoison.so')
         _LIB = ctypes.PyDLL(path)
         _LIB.poison_install.argtypes = [ctypes.c_uint64, ctypes.c_uint64, ctypes.c_int]
         _LIB.poison_set.argtypes = [ctypes.c_uint64, ctypes.c_uint64, ctypes.c_int]
